@@ -39,6 +39,9 @@ class Frame(object):
         """No pre-existing object was written during the call (syntactic, per path)."""
         return len(self.writes) == 0
 
+    def unchanged_except_self(self):
+        return all(cont is self.self for (cont, key) in self.writes)
+
     def snapshot(self):
         memo = {}
         o = Frame(snapshot(self.self, memo), {k: snapshot(v, memo) for k, v in self.args.items()})
